@@ -17,16 +17,16 @@ var ErrInjected = errors.New("injected fault")
 // request, aliased the way some drivers do), TTLs run on the coarse clock
 // like the in-repo storages, and each call can be made to fail.
 type SimStorage struct {
-	S       *simrt.Sim
-	Name    string
-	data    map[string]simEntry
-	Alias   bool // hand out the stored slice itself
+	S     *simrt.Sim
+	Name  string
+	data  map[string]simEntry
+	Alias bool // hand out the stored slice itself
 	// HideSizes keeps value lengths out of the trace (gob output of a map varies
 	// in length with Go's map order, which would break exact replay of the log)
 	HideSizes bool
-	FailGet int  // permille
-	FailSet int
-	FailDel int
+	FailGet   int // permille
+	FailSet   int
+	FailDel   int
 	// OnFault is called when a call is made to fail (op: get/set/del).
 	OnFault func(op string)
 	// OnOp is called (with the token) after every mutation, for invariants.
